@@ -27,6 +27,7 @@ import (
 	"go.uber.org/atomic"
 
 	"github.com/lindb/lindb/index"
+	"github.com/lindb/lindb/internal/verifhook"
 	"github.com/lindb/lindb/series/metric"
 )
 
@@ -109,6 +110,7 @@ func (idb *indexDatabase) getOrCreateTimeSeriesIndex(nameHash uint64) TimeSeries
 	if ok {
 		return timeSeriesIndex.(TimeSeriesIndex)
 	}
+	verifhook.Yield("memdb.indexdb.beforeStoreTimeSeriesIndex")
 	newTimeSeriesIndex := NewTimeSeriesIndex()
 	// store time series index
 	idb.timeSeriesIndexes.Store(nameHash, newTimeSeriesIndex)
